@@ -51,6 +51,8 @@ impl Minimizer {
     /// The minimization is done using the subset construction algorithm.
     /// The method takes a DFA and returns a minimized DFA.
     pub(crate) fn minimize(dfa: CompiledDfa) -> CompiledDfa {
+        #[cfg(feature = "verif")]
+        crate::verif::record_before(&dfa);
         trace!("Minimize DFA ----------------------------");
         trace!("Initial DFA:\n{}", dfa);
         // The transitions of the DFA in a convenient data structure.
@@ -262,6 +264,8 @@ impl Minimizer {
 
         trace!("Minimized DFA:\n{}", dfa);
 
+        #[cfg(feature = "verif")]
+        crate::verif::record_after(&dfa);
         dfa
     }
 
